@@ -30,6 +30,7 @@ type WSig struct {
 	Forge    string `json:"forge,omitempty"`     // "" valid | "other-content" well-formed signature over different bytes | "garbage" undecodable value
 	WithCert bool   `json:"with_cert,omitempty"` // attach the signer's certificate (legacy wrapper only)
 	CertOf   string `json:"cert_of,omitempty"`   // attach another certificate instead: "pki:<name>" or "pubkey:<pool name>" (a bare public key PEM)
+	Chain    []string `json:"chain,omitempty"`   // with_cert: further PKI certificates appended to the cert member (the signer brings his own intermediates)
 }
 
 // WMetaFile is one metadata file.
@@ -89,6 +90,8 @@ type World struct {
 	LinksInProduct bool `json:"links_in_product,omitempty"`
 	// RunDirRel (entry "rundir"): the run directory is named relative to the working directory ("product")
 	RunDirRel bool `json:"run_dir_rel,omitempty"`
+	// LinkDirRel: the link directory is named relative to the working directory
+	LinkDirRel bool `json:"link_dir_rel,omitempty"`
 	// BundleIntermediates: the caller hands over its intermediates as ONE PEM blob ("forward" | "reverse" order)
 	BundleIntermediates string `json:"bundle_intermediates,omitempty"`
 }
@@ -236,7 +239,13 @@ func (b *Built) FileBytes(f WMetaFile) ([]byte, error) {
 			case s.CertOf != "":
 				e["cert"] = s.CertOf
 			case s.WithCert && cert != nil:
-				e["cert"] = cert.PEM
+				pemText := cert.PEM
+				for _, n := range s.Chain {
+					if cc := b.Certs[n]; cc != nil {
+						pemText += cc.PEM
+					}
+				}
+				e["cert"] = pemText
 			}
 		}
 		sigs = append(sigs, e)
@@ -340,7 +349,7 @@ func Materialise(w World, root string) (*Built, error) {
 		}
 	}
 	// what an isolated verifier process needs (cmd/worker "verify")
-	vf := VerifyFile{Entry: w.Entry, LineNorm: w.LineNorm, Keys: b.VerifierKeyMap(), Params: w.Params, LinksInProduct: w.LinksInProduct, RunDirRel: w.RunDirRel}
+	vf := VerifyFile{Entry: w.Entry, LineNorm: w.LineNorm, Keys: b.VerifierKeyMap(), Params: w.Params, LinksInProduct: w.LinksInProduct, RunDirRel: w.RunDirRel, LinkDirRel: w.LinkDirRel}
 	for _, p := range b.IntermediatePEMs() {
 		vf.Intermediates = append(vf.Intermediates, string(p))
 	}
@@ -520,7 +529,7 @@ func (b *Built) VerifyWith(layout intoto.Metadata, keys map[string]intoto.Key, p
 		return
 	}
 	if b.W.Entry == "rundir" {
-		cwd = filepath.Join(runRoot, "cwd")
+		cwd = filepath.Join(runRoot, "cwd", "here") // (another depth than the run directory: relative paths resolve differently from there)
 		_ = os.MkdirAll(cwd, 0o755)
 		if b.W.RunDirRel {
 			cwd = runRoot
@@ -539,6 +548,11 @@ func (b *Built) VerifyWith(layout intoto.Metadata, keys map[string]intoto.Key, p
 			return
 		}
 		linkDir = prod
+	}
+	if b.W.LinkDirRel {
+		if rel, err := filepath.Rel(cwd, linkDir); err == nil {
+			linkDir = rel
+		}
 	}
 	out.RunDir = prod
 	old, _ := os.Getwd()
@@ -643,6 +657,7 @@ type VerifyFile struct {
 	Intermediates []string              `json:"intermediates"`
 	LinksInProduct bool                 `json:"links_in_product"`
 	RunDirRel      bool                 `json:"run_dir_rel"`
+	LinkDirRel     bool                 `json:"link_dir_rel"`
 }
 
 // VerifyResult is the isolated verifier's report.
@@ -680,7 +695,7 @@ func VerifyIsolated(root string) VerifyResult {
 	}
 	cwd := prod
 	if vf.Entry == "rundir" {
-		cwd = filepath.Join(runRoot, "cwd")
+		cwd = filepath.Join(runRoot, "cwd", "here") // (another depth than the run directory: relative paths resolve differently from there)
 		_ = os.MkdirAll(cwd, 0o755)
 		if vf.RunDirRel {
 			cwd = runRoot
@@ -698,6 +713,11 @@ func VerifyIsolated(root string) VerifyResult {
 			return res
 		}
 		b.LinkDir = prod
+	}
+	if vf.LinkDirRel {
+		if rel, err := filepath.Rel(cwd, b.LinkDir); err == nil {
+			b.LinkDir = rel
+		}
 	}
 	if err := os.Chdir(cwd); err != nil {
 		res.Err = "harness: " + err.Error()
